@@ -298,6 +298,14 @@ def new_case(config, ctx):
 # Reference model of the lifecycle (never imports testtools)
 
 
+class ModelAbort(Exception):
+    """An action (e.g. useFixture of a fixture whose setUp fails) aborts the running stage."""
+
+    def __init__(self, kind):
+        Exception.__init__(self, kind)
+        self.kind = kind
+
+
 class ModelRun:
     """What the documented lifecycle does for a config + decisions."""
 
@@ -343,13 +351,25 @@ class ModelRun:
 
     def stage(self, stage, pre_site=None):
         self.stages.append(("run", stage))
-        if pre_site:
-            self.actions(pre_site)
-        k = self.decide(stage)
-        if isinstance(k, tuple):
-            self.raised.append((pre_site, k[1]))
+        try:
+            if pre_site:
+                self.actions(pre_site)
+        except ModelAbort as a:
+            self.raised.append((pre_site, a.kind))
             return False
-        self.actions(stage)
+        if pre_site:
+            # setUp decides before the up-call, the other stages after their actions
+            k = self.decide(stage)
+            if isinstance(k, tuple):
+                self.raised.append((pre_site, k[1]))
+                return False
+        try:
+            self.actions(stage)
+        except ModelAbort as a:
+            self.raised.append((stage, a.kind))
+            return False
+        if not pre_site:
+            k = self.decide(stage)
         if k != RET:
             self.raised.append((stage, k))
             return False
